@@ -310,7 +310,7 @@ def motor_space(tier):
     ops += [("backward", (v,), {}) for v in speeds[:8] + [0.001, float("nan")]] + [("backward", (), {})]
     ops += [("ramp", (0.002, 40), {}), ("ramp", (float("nan"), 40), {}), ("run_for", (10, 0.002), {})]
     for tgt in (-2, -1, 0, 0.5, 1, "x"):
-        for dur in (-1, 0, 100, 33):
+        for dur in (-1, 0, 100, 33, 5, 0.5, 19, 19.99, True, 20):
             ops.append(("ramp", (tgt, dur), {}))
     for dur in (-1, 0, 50, 2.5):
         for sp in (-1, 0, 0.5, 2, "x"):
